@@ -316,6 +316,9 @@ Qed.
 Lemma inr_app : forall a b sa sb, inr a sa -> inr b sb -> inr (a ++ b) (sa ++ sb).
 Proof. intros. apply Forall2_app; assumption. Qed.
 
+Lemma inr_cons_inv : forall a l b m, inr (a :: l) (b :: m) -> (a < b)%nat /\ inr l m.
+Proof. intros. inversion H; subst. auto. Qed.
+
 Lemma inr_length : forall a sa, inr a sa -> length a = length sa.
 Proof. induction 1; simpl; auto. Qed.
 
@@ -338,14 +341,15 @@ Proof.
   assert (Hlt := ravel_lt _ _ Hr).
   assert (Hshape : forall h, ravel (h :: rem) (a :: rest) = (a * prodl rem + ravel rem rest)%nat) by reflexivity.
   assert (Hun : unravel [mrows R B; prodl rem] (a * prodl rem + ravel rem rest) = [a; ravel rem rest]).
-  { simpl. rewrite !Nat.mul_1_r, Nat.div_1_r.
+  { cbn [unravel prodl]. rewrite !Nat.mul_1_r, Nat.div_1_r.
     destruct (divmod_ravel a (prodl rem) (ravel rem rest) Hlt) as [E1 E2]. rewrite E1, E2. reflexivity. }
   assert (Hgoal : forall shp', ravel shp' (a :: rest) = (a * prodl rem + ravel rem rest)%nat ->
      aat R (reshape R shp' (dot2 R rO radd rmul B
         (reshape R [nth k (ashape R X) 0%nat; prodl (tl (ashape R (rollaxis0 R rO k X)))] (rollaxis0 R rO k X))))
        (a :: rest) = sumn (mcols R B) (fun j => ment R B a j * aat R X (insert_at k j rest))).
-  { intros shp' Hs. simpl. fold rem. rewrite Hs, Hun. apply sumn_ext. intros j _. f_equal.
-    rewrite !Nat.mul_1_r, Nat.add_0_r.
+  { intros shp' Hs. cbn [aat reshape dot2 ashape rollaxis0 nth tl]. fold rem. rewrite Hs, Hun.
+    apply sumn_ext. intros j _. f_equal.
+    cbn [ravel prodl unravel]. rewrite !Nat.mul_1_r, Nat.add_0_r.
     destruct (divmod_ravel j (prodl rem) (ravel rem rest) Hlt) as [E1 E2]. rewrite E1, E2.
     rewrite unravel_ravel by assumption. reflexivity. }
   destruct (Nat.eqb (mrows R B) (nth k (ashape R X) 0%nat)); apply Hgoal; simpl; reflexivity.
@@ -408,15 +412,15 @@ Lemma tprod_step_shape_at : forall n o (T : arr R) l1 c0 l2,
     | None => aat R T (insert_at (n - 1) a rest)
     end.
 Proof.
-  intros n o T l1 c0 l2 Hs Hl Hc. rewrite <- Hl.
+  intros n o T l1 c0 l2 Hs Hl Hc.
   assert (Hrem : remove_at (length l1) (ashape R T) = l1 ++ l2) by (rewrite Hs; apply remove_at_app).
   assert (Hnth : nth (length l1) (ashape R T) 0%nat = c0) by (rewrite Hs; apply nth_middle).
-  destruct o as [[[|] B]|]; simpl in *; rewrite <- ?Hl.
-  - rewrite Hrem. split; auto.
+  destruct o as [[[|] B]|]; cbn [tprod_step omat mcols mrows] in *; rewrite <- Hl.
+  - cbn [tensordot_BA ashape aat]. rewrite Hrem. split; auto.
   - split.
     + rewrite modek_sparse_shape by congruence. rewrite Hrem. reflexivity.
     + intros. apply modek_sparse_at. rewrite Hrem. assumption.
-  - rewrite Hrem, Hnth. split; auto.
+  - cbn [rollaxis0 ashape aat]. rewrite Hrem, Hnth. split; auto.
 Qed.
 
 Lemma apply_tprod_inv : forall n S sP sS sT (X : arr R),
@@ -446,7 +450,8 @@ Proof.
     split.
     + rewrite Hsh. simpl. rewrite <- app_assoc. reflexivity.
     + intros s_idx p_idx t Hsi Hpi Hti.
-      simpl out_shape in Hsi. inversion Hsi as [|a a' s' s'' Ha Hs'']; subst.
+      simpl out_shape in Hsi. destruct s_idx as [|a s']; [inversion Hsi|].
+      apply inr_cons_inv in Hsi. destruct Hsi as [Ha Hs''].
       assert (Hrest : inr (s' ++ p_idx ++ t) ((out_shape S' sS' ++ sP) ++ sT)).
       { rewrite <- app_assoc. apply inr_app; auto. apply inr_app; auto. }
       simpl app. rewrite Hat by (auto; apply inr_length; assumption).
@@ -462,7 +467,7 @@ Proof.
         -- apply inr_app; auto. constructor; [|constructor]. simpl in Hc0. lia.
       * rewrite Hins. rewrite Hat'; auto.
         -- apply tprod_spec_ext. intros r. rewrite <- app_assoc. reflexivity.
-        -- apply inr_app; auto.
+        -- apply inr_app; auto. constructor; [assumption|constructor].
 Qed.
 
 Lemma apply_tprod_spec_l : forall ops (X : arr R) sS sT,
@@ -474,7 +479,126 @@ Proof.
   intros. unfold apply_tprod.
   destruct (apply_tprod_inv (length ops) ops [] sS sT X H H0 eq_refl) as [Hs Hat].
   split. assumption.
-  intros a t Ha Ht. rewrite (Hat a [] t Ha (Forall2_nil _) Ht). reflexivity.
+  intros a t Ha Ht. exact (Hat a [] t Ha (Forall2_nil _) Ht).
+Qed.
+
+(* ---------------- SubspaceOperator ---------------- *)
+Definition pbp_ent (P B : mat R) (r c : nat) : R :=
+  sumn (mcols R P) (fun a => sumn (mcols R B) (fun b => ment R P r a * ment R B a b * ment R P c b)).
+
+(* the dense definition  sum_j P_j B_j P_j^T  (B_j^T when transposed) *)
+Definition subspace_dense (n : nat) (tr : bool) (PB : list (mat R * mat R)) : mat R :=
+  mkmat R n n (fun r c => fold_right (fun pb acc => pbp_ent (fst pb) (if tr then mT R (snd pb) else snd pb) r c + acc) 0 PB).
+
+Lemma pbp_apply : forall (P B : mat R) x r,
+  mv P (mv B (mv (mT R P) x)) r = sumn (mrows R P) (fun c => pbp_ent P B r c * x c).
+Proof.
+  intros. unfold mv, pbp_ent. cbn [mcols mT ment].
+  transitivity (sumn (mcols R P) (fun a => sumn (mcols R B) (fun b => sumn (mrows R P)
+                  (fun c => ment R P r a * ment R B a b * ment R P c b * x c)))).
+  - apply sumn_ext; intros a _. rewrite <- sumn_mul_l. apply sumn_ext; intros b _.
+    rewrite <- !sumn_mul_l. apply sumn_ext; intros c _. ring.
+  - symmetry.
+    transitivity (sumn (mrows R P) (fun c => sumn (mcols R P) (fun a => sumn (mcols R B)
+                  (fun b => ment R P r a * ment R B a b * ment R P c b * x c)))).
+    + apply sumn_ext; intros c _. rewrite <- sumn_mul_r. apply sumn_ext; intros a _.
+      rewrite <- sumn_mul_r. reflexivity.
+    + rewrite sumn_swap. apply sumn_ext; intros a _. rewrite sumn_swap. reflexivity.
+Qed.
+
+Lemma subspace_fold : forall n tr PB x y r,
+  (forall pb, In pb PB -> mrows R (fst pb) = n) ->
+  fold_left (fun y pb r =>
+     radd (y r) (mv (fst pb) (mv (if tr then mT R (snd pb) else snd pb) (mv (mT R (fst pb)) x)) r)) PB y r =
+  y r + sumn n (fun c => fold_right (fun pb acc => pbp_ent (fst pb) (if tr then mT R (snd pb) else snd pb) r c + acc) 0 PB * x c).
+Proof.
+  induction PB; intros; simpl.
+  - rewrite (sumn_ext n _ (fun _ => 0)), sumn_zero. ring. intros; ring.
+  - rewrite IHPB by (intros; apply H; right; assumption).
+    rewrite pbp_apply, (H a) by (left; reflexivity).
+    rewrite (sumn_ext n (fun c => (pbp_ent _ _ r c + _) * x c)
+               (fun c => pbp_ent (fst a) (if tr then mT R (snd a) else snd a) r c * x c +
+                         fold_right (fun pb acc => pbp_ent (fst pb) (if tr then mT R (snd pb) else snd pb) r c + acc) 0 PB * x c))
+      by (intros; ring).
+    rewrite sumn_add. ring.
+Qed.
+
+Lemma subspace_spec_l : forall n tr PB x r,
+  (forall pb, In pb PB -> mrows R (fst pb) = n) ->
+  subspace_matvec R rO radd rmul tr PB x r = mv (subspace_dense n tr PB) x r.
+Proof.
+  intros. unfold subspace_matvec. rewrite (subspace_fold n) by assumption.
+  unfold mv; simpl. ring.
+Qed.
+
+Lemma pbp_transpose : forall (P B : mat R) r c, mcols R B = mcols R P -> mrows R B = mcols R P ->
+  pbp_ent P (mT R B) r c = pbp_ent P B c r.
+Proof.
+  intros. unfold pbp_ent. cbn [mcols mT ment]. rewrite H, H0.
+  rewrite sumn_swap. apply sumn_ext; intros a _. apply sumn_ext; intros b _. ring.
+Qed.
+
+Lemma subspace_transpose_l : forall n PB r c,
+  (forall pb, In pb PB -> mcols R (snd pb) = mcols R (fst pb) /\ mrows R (snd pb) = mcols R (fst pb)) ->
+  ment R (subspace_dense n true PB) r c = ment R (mT R (subspace_dense n false PB)) r c.
+Proof.
+  intros. simpl. induction PB; simpl; auto.
+  destruct (H a (or_introl eq_refl)) as [H1 H2].
+  rewrite pbp_transpose, IHPB by (auto; intros; apply H; right; assumption). reflexivity.
+Qed.
+
+(* ---------------- CSR row slices / subsets ---------------- *)
+(* entry c of row r of the matrix a CSR structure denotes (duplicate entries add up) *)
+Fixpoint csr_ent_sum (cnt p : nat) (A : csr R) (c : nat) : R :=
+  match cnt with
+  | O => 0
+  | S k => (if Nat.eqb (nth p (c_indices R A) 0%nat) c then nth p (c_data R A) 0 else 0) + csr_ent_sum k (S p) A c
+  end.
+Definition csr_dense (A : csr R) : mat R :=
+  mkmat R (c_rows R A) (c_cols R A)
+    (fun r c => csr_ent_sum (nth (S r) (c_indptr R A) 0 - nth r (c_indptr R A) 0)%nat (nth r (c_indptr R A) 0%nat) A c).
+
+Lemma csr_row_sum_dense : forall cnt p A x,
+  (forall q, (p <= q < p + cnt)%nat -> (nth q (c_indices R A) 0 < c_cols R A)%nat) ->
+  csr_row_sum R rO radd rmul cnt p A x = sumn (c_cols R A) (fun c => csr_ent_sum cnt p A c * x c).
+Proof.
+  induction cnt; intros; simpl.
+  - rewrite (sumn_ext _ _ (fun _ => 0)), sumn_zero; auto. intros; ring.
+  - rewrite IHcnt by (intros; apply H; lia).
+    rewrite (sumn_ext _ (fun c => (_ + csr_ent_sum cnt (S p) A c) * x c)
+               (fun c => (if Nat.eqb c (nth p (c_indices R A) 0%nat) then nth p (c_data R A) 0 * x c else 0)
+                         + csr_ent_sum cnt (S p) A c * x c)).
+    + rewrite sumn_add, sumn_delta by (apply H; lia). reflexivity.
+    + intros c _. rewrite (Nat.eqb_sym c). destruct (Nat.eqb (nth p (c_indices R A) 0%nat) c); ring.
+Qed.
+
+Definition csr_wf (A : csr R) : Prop :=
+  forall q, (q < length (c_indices R A))%nat -> (nth q (c_indices R A) 0 < c_cols R A)%nat.
+
+Lemma csr_row_spec : forall A r x, csr_wf A ->
+  (nth (S r) (c_indptr R A) 0 <= length (c_indices R A))%nat ->
+  csr_row R rO radd rmul A r x = mv (csr_dense A) x r.
+Proof.
+  intros. unfold csr_row, mv. cbn [csr_dense mcols ment]. apply csr_row_sum_dense.
+  intros q Hq. apply H. lia.
+Qed.
+
+Lemma rowslice_spec_l : forall A r0 r1 x i, csr_wf A ->
+  (forall r, (r < r1)%nat -> (nth (S r) (c_indptr R A) 0 <= length (c_indices R A))%nat) ->
+  (i < r1 - r0)%nat ->
+  csr_rowslice R rO radd rmul A r0 r1 x i = mv (csr_dense A) x (r0 + i)%nat.
+Proof.
+  intros. unfold csr_rowslice. destruct (Nat.ltb_spec i (r1 - r0)); [|lia].
+  apply csr_row_spec; auto. apply H0. lia.
+Qed.
+
+Lemma rowsubset_spec_l : forall A rows x i, csr_wf A ->
+  (forall r, In r rows -> (nth (S r) (c_indptr R A) 0 <= length (c_indices R A))%nat) ->
+  (i < length rows)%nat ->
+  csr_rowsubset R rO radd rmul A rows x i = mv (csr_dense A) x (nth i rows 0%nat).
+Proof.
+  intros. unfold csr_rowsubset. destruct (Nat.ltb_spec i (length rows)); [|lia].
+  apply csr_row_spec; auto. apply H0. apply nth_In. assumption.
 Qed.
 
 End Proofs.
